@@ -9,8 +9,10 @@ import (
 	"os"
 	"reflect"
 	"slices"
+	"sync"
 	"testing"
 	"testing/cryptotest"
+	"verifsim/echbox"
 
 	"github.com/c2FmZQ/ech"
 
@@ -39,6 +41,10 @@ type KeySetPlan struct {
 	// public name of ANOTHER key of the pool: whenever the target key is held
 	// the hello must be refused (illegal_parameter), whatever else is held.
 	WrongOuterName bool `json:"wrong_outer_name,omitempty"`
+	// Parallel: the key list is used by several connections at the same time
+	// (real goroutines, no simulated clock involved): hellos sealed to every key
+	// of the pool, all of them acceptable.
+	Parallel bool `json:"parallel,omitempty"`
 	// CtxEnds: the context of NewConn ends while the last octet of the hello is
 	// handed over (every third list).
 	CtxEnds bool `json:"ctx_ends,omitempty"`
@@ -67,6 +73,9 @@ func permLists(n int) [][]int {
 func executeKeySet(t *testing.T, prop string, seed uint64, p *KeySetPlan) *core.Result {
 	res := &core.Result{}
 	cryptotest.SetGlobalRandom(t, seed)
+	if p.Parallel {
+		return executeKeySetParallel(res, prop, seed, p)
+	}
 	base := p.Base
 	base.Keys = []KeySpec{base.Target}
 	base.Expect = "accept"
@@ -327,6 +336,7 @@ func genC09(seed uint64, idx int) *Plan {
 	}
 	k.CtxEnds = idx%2 == 0
 	wrongName := !k.Unlisted && k.BadEnc == 0 && idx%8 == 3
+	k.Parallel = !k.Unlisted && k.BadEnc == 0 && idx%8 == 7
 	n := 1 + r.IntN(3)
 	for i := 0; i < n; i++ {
 		o := KeySpec{ID: byte(r.IntN(256)), PublicName: base.Target.PublicName, Suites: genSuites(r), KeySeed: int(r.Uint32()), Retry: true, OwnEncoder: r.IntN(3) == 0}
@@ -341,6 +351,20 @@ func genC09(seed uint64, idx int) *Plan {
 			o.PublicName = genPublicName(r)
 		}
 		k.Others = append(k.Others, o)
+	}
+	if idx%3 == 2 {
+		// the target's own key pair re-issued under a config whose octets differ
+		// (another maximum_name_length, another suite order): same id, same
+		// public key, another info string
+		re := base.Target
+		re.MaxNameDelta = 7
+		if len(re.Suites) > 1 {
+			re.Suites = append([]echbox.Suite{re.Suites[len(re.Suites)-1]}, re.Suites[:len(re.Suites)-1]...)
+		}
+		k.Others = append(k.Others, re)
+		if len(k.Others) > 3 {
+			k.Others = k.Others[1:]
+		}
 	}
 	if wrongName {
 		k.WrongOuterName = true
@@ -385,4 +409,92 @@ func (c *cancelAtConn) Read(p []byte) (int, error) {
 		c.cancel()
 	}
 	return n, err
+}
+
+// executeKeySetParallel: one server process, one key list, many connections at
+// once. Whether a hello is accepted must not depend on what other connections
+// are doing at that moment.
+func executeKeySetParallel(res *core.Result, prop string, seed uint64, p *KeySetPlan) *core.Result {
+	base := p.Base
+	base.Expect = "accept"
+	pool := append([]KeySpec{base.Target}, p.Others...)
+	type flight struct {
+		rec, want []byte
+		key       int
+	}
+	var flights []flight
+	for i := range pool {
+		db := base
+		db.Target, db.Keys, db.Mutations, db.SuiteIdx = pool[i], []KeySpec{pool[i]}, nil, 0
+		d, err := buildScript(core.Mix(seed, "parallel", i), &db)
+		if err == errSkip {
+			continue
+		}
+		if err != nil {
+			res.Harness = "buildScript: " + err.Error()
+			return res
+		}
+		flights = append(flights, flight{d.outerRec, d.wantInner, i})
+	}
+	if len(flights) == 0 {
+		res.Probe("scenario_skipped")
+		return res
+	}
+	ks := echKeys(pool)
+	const workers, rounds = 8, 24
+	var mu sync.Mutex
+	var wg sync.WaitGroup
+	start := make(chan struct{})
+	for g := 0; g < workers; g++ {
+		wg.Add(1)
+		go func(g int) {
+			defer wg.Done()
+			<-start
+			buf := make([]byte, 70000)
+			for i := 0; i < rounds; i++ {
+				f := flights[(g+i)%len(flights)]
+				sc := simnet.NewScript(f.rec)
+				sc.NoEOF = true
+				var conn *ech.Conn
+				var err error
+				var n int
+				var rerr error
+				pk, m, site := core.Guard(func() {
+					conn, err = ech.NewConn(context.Background(), sc, ech.WithKeys(ks))
+					if err == nil {
+						n, rerr = conn.Read(buf)
+					}
+				})
+				what := fmt.Sprintf("%d connections at once, %d keys (hello sealed to key %d of the pool)", workers, len(pool), f.key)
+				mu.Lock()
+				res.Evals++
+				switch {
+				case pk:
+					res.Fail(prop, "panic", site+": "+normMsg(m), "%s", what)
+				case err != nil:
+					res.Fail(prop, "aborted-valid", "NewConn aborts an acceptable hello while other connections are being served: "+normErr(err), "%s", what)
+				case !conn.ECHAccepted():
+					res.Fail(prop, "acceptance-depends-on-other-connections", "an acceptable hello is rejected while other connections are being served", "%s", what)
+				default:
+					got := append([]byte(nil), buf[:n]...)
+					w := append([]byte(nil), f.want...)
+					if len(got) >= 3 {
+						w[1], w[2] = got[1], got[2]
+					}
+					if rerr != nil || !bytes.Equal(got, w) {
+						res.Fail(prop, "forwarded-hello-depends-on-other-connections", "first record differs from the reference while other connections are being served", "%s: err=%v first diff %d", what, rerr, firstDiff(got, w))
+					}
+				}
+				mu.Unlock()
+			}
+		}(g)
+	}
+	close(start)
+	wg.Wait()
+	res.Probe("connections_in_parallel")
+	res.NonTrivial = res.Harness == ""
+	res.Arbitrated = true // real parallelism: which goroutine runs when is the runtime's choice
+	res.Sig = core.SigOf("keyset-parallel", fmt.Sprint(len(pool)), fmt.Sprint(seed%1024))
+	res.Sample = map[string]any{"kind": "keyset", "parallel": true, "pool": len(pool), "connections": workers * rounds}
+	return res
 }
